@@ -6,28 +6,38 @@ import re
 
 import lib
 
-TARGETS = ["Props/C15.v", "Naming/SyncScript.v"]
+TARGETS = ["Props/C15.v", "Naming/SyncScript.v", "Naming/SyncHttp.v"]
 
 MANIFEST = dict(
     text="PARTIAL. Proved (Rocq, all states/inputs of the model): the delay actor sends exactly the last operation per key "
          "(batch_last_op_wins) and how a batch is applied; a pointwise specification of one anti-entropy exchange "
          "SyncDistroClientInstances -> QueryDistroInstanceSnapshot -> Snapshot, hence distro_round_repairs, preservation of "
          "the receiver invariant, quiescent_fixpoint (no client operations, queues drained, one round => all live nodes "
-         "answer the same for every key, for any number of nodes), dead_node_clients_removed and rejoin_receives_snapshot. "
-         "The model (gRPC ephemeral instances; registry, client_set bookkeeping, delay map, per-pair FIFO queues of the "
-         "messages the code really sends) is tied to the code by scripts run on real NamingActor / "
-         "ClusterInstanceDelayNotifyActor / InnerNodeManage / ClusteSyncSender actors (sync traffic captured instead of "
-         "sent) and compared state by state and message by message with the model, plus an independent convergence oracle "
-         "computed from the operation log.",
-    note="Runtime-only (NOT proved, NOT observed here): liveness under real message delay and loss (ClusteSyncSender "
-         "retries once after 100 ms, requests are concurrent so per-pair FIFO order is an assumption), the 500 ms / 3 s / "
-         "12 s / 15 s timers and the failure-detection timing, HTTP instances (routed writes + 15 s beat batches), persistent "
-         "instances (Raft), a 3-process cluster on loopback.  handle_naming_route is transcribed in the harness (tied to the "
-         "source by a hash of the function text).  client_instance_set is taken as the index of the registry by client id "
-         "(C11), re-checked at every dump.  Known finding: the anti-entropy exchange compares key sets only, so a payload "
-         "change missed with a lost batch is never repaired.",
-    technique="Rocq proof (pointwise specs of the receive steps, induction over the senders of a round) + model/implementation "
-              "correspondence on operation scripts + convergence oracle",
+         "answer the same for every key, for any number of nodes), dead_node_clients_removed, rejoin_receives_snapshot; for "
+         "HTTP instances (on top of the C14 ownership theorem, all live nodes sharing one view): http_register_converges, "
+         "http_deregister_converges, update+remove of one key inside one 500 ms window, and the refutations "
+         "stale_snapshot_restores_deregistered / stale_snapshot_overwrites_update. The gRPC model is tied to the code by "
+         "scripts run on real NamingActor / ClusterInstanceDelayNotifyActor / InnerNodeManage / ClusteSyncSender actors "
+         "(sync traffic captured instead of sent) and compared state by state and message by message with the model. "
+         "The HTTP path is observed on THREE REAL rnacos PROCESSES on loopback: seeded register / update / deregister / "
+         "beat of ephemeral and persistent instances in several namespaces / groups / services addressed to arbitrary "
+         "nodes, without fault and with kill -9, restart and SIGSTOP (> 18 s) of a node; after the operations stop and the "
+         "sync interval has passed /nacos/v1/ns/instance/list of every live node is compared with the other nodes and "
+         "with the sequential spec of the acknowledged operations.",
+    note="Runtime-only (NOT proved): liveness under real message delay and loss (ClusteSyncSender retries once after 100 ms, "
+         "requests are concurrent so per-pair FIFO order is an assumption), the 500 ms / 3 s / 12 s / 15 s timers, nodes with "
+         "different live-node views.  gRPC clients are not available offline: the gRPC part stays at component level; "
+         "handle_naming_route is transcribed in the harness (tied to the source by a hash of the function text).  "
+         "client_instance_set is taken as the index of the registry by client id (C11), re-checked at every dump.  Not judged "
+         "in the process scenarios: expiry of instances whose client stopped beating (C13), unacknowledged operations.  "
+         "Known findings: the gRPC anti-entropy compares key sets only (distro-diff-ignores-values); HTTP state transfers "
+         "(snapshots, 15 s beat batches) are applied unconditionally, so an older state can follow a newer acknowledged "
+         "update / deregistration (http-sync-stale-state:snapshot, :ownership) - discrepancies of instances whose last "
+         "acknowledged operation lies in such a window are reported as known findings, all others are violations (after one "
+         "retry with doubled waits; a discrepancy that disappears then is reported as inconclusive).",
+    technique="Rocq proof (pointwise specs of the receive steps, induction over the senders of a round, C14 ownership theorem "
+              "for the HTTP path) + model/implementation correspondence on operation scripts + convergence oracle + "
+              "multi-process scenarios on the real binary",
     design="3/C15",
 )
 
@@ -295,6 +305,138 @@ def expected_registry(ops, dead_after=None):
     return reg
 
 
+# ---------------------------------------------------------------- multi-process scenario: verdicts
+def naming_verdicts(obs):
+    """What C15 demands of the observations of nodescen_naming.scenario_naming_converge:
+      (1) every live node answers the same list for every service (ip, port, weight, healthy, enabled, ephemeral);
+      (2) an instance whose last acknowledged operation is a registration/update and which is kept alive by
+          beats (ephemeral) or is persistent is held by every live node with the acknowledged weight / enabled
+          state, healthy; a disabled one is hidden by the list but answered by GET /instance;
+      (3) an instance whose last acknowledged operation is a deregistration is held by no live node.
+    NOT judged here: ephemeral instances whose client stopped beating without deregistering (their expiry is
+    property C13; only (1) applies to them), operations that were not acknowledged (either outcome).
+    Returns a list of (key, what, detail)."""
+    out = []
+    final = obs.get("final") or {}
+    live = sorted(final)
+    if not live:
+        return [("naming:no-observation", "no live node was observed", {})]
+    ref = live[0]
+    for svc in sorted(final[ref]["lists"]):
+        rows = dict((n, final[n]["lists"].get(svc)) for n in live)
+        if any(isinstance(r, str) for r in rows.values()):
+            out.append(("naming:list-error", "instance list of %s failed: %s" % (svc, rows), {"service": svc, "rows": rows}))
+        elif any(rows[n] != rows[ref] for n in live):
+            out.append(("naming:nodes-differ", "live nodes answer different instance lists for %s: %s" % (svc, rows),
+                        {"service": svc, "rows": rows}))
+    abandoned_left = 0
+    for name, s in sorted((obs.get("spec") or {}).items()):
+        ns, grp, svc, ip, port = name.split("/")
+        port = int(port)
+        svc_key = "/".join((ns, grp, svc))
+        if s["abandoned"] or not s["sure"]:
+            if s["abandoned"] and any(final[n]["single"].get(name) for n in live):
+                abandoned_left += 1
+            continue
+        for n in live:
+            lst = final[n]["lists"].get(svc_key)
+            if isinstance(lst, str):
+                continue
+            row = next((r for r in lst if r[0] == ip and r[1] == port), None)
+            single = final[n]["single"].get(name)
+            if s["state"] == "present":
+                want = [ip, port, float(s["weight"]), True, s["enabled"], s["eph"]]
+                got = row if s["enabled"] else single
+                if got is None:
+                    out.append(("naming:acked-instance-missing",
+                                "node %s does not hold %s (registered, %s) after quiescence" %
+                                (n, name, "kept alive by beats" if s["eph"] else "persistent"),
+                                {"node": n, "instance": name, "want": want, "list_row": row, "single": single}))
+                elif got != want:
+                    out.append(("naming:acked-instance-differs",
+                                "node %s answers %s for %s, acknowledged state is %s" % (n, got, name, want),
+                                {"node": n, "instance": name, "want": want, "got": got}))
+                elif not s["enabled"] and row is not None:
+                    out.append(("naming:disabled-listed", "node %s lists the disabled instance %s" % (n, name),
+                                {"node": n, "instance": name}))
+            else:
+                if row is not None or single is not None:
+                    out.append(("naming:deregistered-present",
+                                "node %s still holds %s after its acknowledged deregistration: %s" % (n, name, row or single),
+                                {"node": n, "instance": name, "row": row, "single": single}))
+    obs["abandoned_left"] = abandoned_left
+    return out
+
+
+def naming_hazards(obs):
+    """Time windows (seconds since scenario start) in which the HTTP sync protocol is known to be able to
+    re-apply an OLDER instance state after a newer acknowledged operation (known findings of C15):
+      snapshot: every node pulls snapshots 1 s / 15 s / 45 s after its start and pushes one after 30 s; the answers
+                cover the answering node's current AND former ranges and are applied unconditionally;
+      ownership: for 15 s after the live-node view of some node changed (join, a node marked invalid / valid
+                again, restart) the 15 s heart-beat batch of the PREVIOUS owner still carries the instance as it
+                was when it processed the last beat; while a node is considered invalid it is sent no batches.
+    -> list of (from, to, mechanism)"""
+    tl = obs.get("timeline") or {}
+    wins = []
+    for nid, ss in (tl.get("starts") or {}).items():
+        for s0 in ss:
+            for a, b in ((0.0, 4.5), (13.5, 19.5), (28.5, 33.5), (43.5, 49.5)):
+                wins.append((s0 + a, s0 + b, "snapshot"))
+    sc = float(obs.get("scale") or 1.0)
+    f = tl.get("fault_s")
+    if f is not None:
+        end = {"kill": f + 19.0 + 16.0, "restart": (tl.get("restarted_s") or f) + 3.0 + 16.0,
+               "stop": (tl.get("sigcont_s") or f + 21.0 * sc) + 7.0 + 16.0}.get(obs.get("fault"), f + 35.0)
+        wins.append((f - 16.0, end, "ownership"))      # beats processed up to 15 s before the change are still pending
+    return wins
+
+
+def naming_explain(obs, name):
+    """mechanism name when the LAST acknowledged operation on the instance falls into a hazard window, else None"""
+    parts = name.split("/")
+    inst = parts[:4] + [int(parts[4])]
+    wins = naming_hazards(obs)
+    acked = [h for h in obs.get("history") or []
+             if h.get("inst") == inst and h.get("op") in ("register", "update", "deregister") and h.get("status") == 200]
+    if not acked:
+        return None
+    t = acked[-1]["t"]            # the operation whose effect is missing
+    for want in ("ownership", "snapshot"):
+        for a, b, m in wins:
+            if m == want and a <= t <= b:
+                return m
+    return None
+
+
+NAMING_VARIANTS = [None, "kill", "restart", "stop"]
+
+
+def run_naming_scenarios(chk, binary, tier):
+    """the real 3-process scenarios; returns (observations, counters)"""
+    import random
+    from concurrent.futures import ThreadPoolExecutor
+    import nodescen_naming
+    jobs = []
+    reps = 1 if tier == "quick" else 3
+    for r in range(reps):
+        for f in NAMING_VARIANTS:
+            jobs.append((f, chk.rng.randrange(1 << 30)))
+
+    def one(job, scale=1.0):
+        f, seed = job
+        try:
+            o = nodescen_naming.scenario_naming_converge(binary, random.Random(seed), fault=f, scale=scale, tag="-%d-%d" % (seed, int(scale)))
+        except Exception as ex:  # noqa: BLE001 machinery (ports, start-up): not a verdict about the property
+            o = {"scenario": "naming_converge", "fault": f, "errors": ["scenario crashed: %r" % ex], "history": [], "final": {}}
+        o["seed"] = seed
+        return o
+
+    with ThreadPoolExecutor(max_workers=4) as ex:
+        outs = list(ex.map(one, jobs))
+    return jobs, outs, one
+
+
 # ---------------------------------------------------------------- the check
 def run(chk, replay=None):
     tier = chk.tier
@@ -308,6 +450,17 @@ def run(chk, replay=None):
     if gh != GLUE_SHA:
         chk.violation("handle_naming_route changed (hash %s, transcribed from %s): the delivery glue of the sync suite must be "
                       "re-transcribed" % (gh, GLUE_SHA), {"broken": "translator", "file": "src/naming/cluster/mod.rs"}, False)
+
+    # ---- the real 3-process cluster scenarios run concurrently with the component-level scripts
+    import nodelib
+    from concurrent.futures import ThreadPoolExecutor as _TPE
+    bok, blog, binary = nodelib.build_binary()
+    naming_future = None
+    naming_pool = _TPE(max_workers=1)
+    if not bok:
+        chk.violation("the rnacos binary does not build", {"broken": "node binary build", "log": blog[-2000:]}, False)
+    elif not replay:
+        naming_future = naming_pool.submit(run_naming_scenarios, chk, binary, tier)
 
     scale = 1 if tier == "quick" else 8
     cases = []
@@ -429,6 +582,75 @@ def run(chk, replay=None):
                                "impl": rd[which] if 0 <= which < len(rd) else None,
                                "correspondence": "Naming.Sync / Naming.SyncScript"}, False)
 
+    # ---- verdicts on the multi-process scenarios -------------------------------------------------
+    scen = {"runs": 0, "clean": 0, "known": 0, "inconclusive": 0, "retried": 0, "verdicts": {}}
+    scen_samples = []
+    if naming_future is not None:
+        jobs, outs, one = naming_future.result()
+        naming_pool.shutdown()
+        for job, o in zip(jobs, outs):
+            scen["runs"] += 1
+            vs = naming_verdicts(o) if not o.get("errors") else []
+            unexplained = [v for v in vs if v[0] in ("naming:list-error", "naming:no-observation") or
+                           not (v[2].get("instance") and naming_explain(o, v[2]["instance"]))
+                           and not (v[0] == "naming:nodes-differ")]
+            if o.get("errors") or unexplained:
+                # start-up trouble or a discrepancy no known mechanism explains: once more with doubled waits
+                scen["retried"] += 1
+                o2 = one(job, scale=2.0)
+                vs2 = naming_verdicts(o2) if not o2.get("errors") else []
+                un2 = [v for v in vs2 if not (v[2].get("instance") and naming_explain(o2, v[2]["instance"]))
+                       and v[0] != "naming:nodes-differ"]
+                if o2.get("errors") or not un2:
+                    scen["inconclusive"] += 1
+                    chk.notes.setdefault("naming_inconclusive", []).append(
+                        {"fault": job[0], "seed": job[1], "first": [v[1][:160] for v in unexplained][:3] or o.get("errors"),
+                         "second_errors": o2.get("errors")})
+                    o, vs = o2, vs2
+                    if o2.get("errors"):
+                        continue
+                else:
+                    o, vs = o2, vs2
+            n_eval += len(o.get("final") or {}) * (len(o.get("spec") or {}) + 8)
+            nontrivial.add(("naming", o.get("fault"), o.get("victim"), len(o.get("history") or [])))
+            svc_of = lambda nm: "/".join(nm.split("/")[:3])
+            explained_svcs = set()
+            for key, what, det in vs:
+                inst = det.get("instance")
+                mech = naming_explain(o, inst) if inst else None
+                if mech:
+                    explained_svcs.add(svc_of(inst))
+            any_v = False
+            for key, what, det in vs:
+                inst = det.get("instance")
+                mech = naming_explain(o, inst) if inst else None
+                if key == "naming:nodes-differ":
+                    # a list difference is attributed to the instances that differ
+                    rows = det.get("rows") or {}
+                    allrows = set(tuple(r) for v in rows.values() if isinstance(v, list) for r in v)
+                    common = set.intersection(*[set(tuple(r) for r in v) for v in rows.values() if isinstance(v, list)]) if rows else set()
+                    names = ["%s/%s/%d" % (det["service"], r[0], r[1]) for r in (allrows - common)]
+                    mechs = [naming_explain(o, nm) for nm in names]
+                    mech = mechs[0] if names and all(mechs) else None
+                any_v = True
+                scen["verdicts"][key] = scen["verdicts"].get(key, 0) + 1
+                rep = {"scenario": "naming_converge", "fault": o.get("fault"), "seed": o.get("seed"), "scale": o.get("scale"),
+                       "victim": o.get("victim"), "timeline": o.get("timeline"), "detail": det,
+                       "history": [h for h in o.get("history", []) if not inst or h.get("inst") == inst.split("/")[:4] + [int(inst.split("/")[4])]][:40]}
+                fkey = "http-sync-stale-state:%s" % mech if mech else key
+                chk.classify(fkey, "[3 real processes, fault=%s] %s" % (o.get("fault"), what), rep)
+            if any_v:
+                scen["known"] += 1
+            else:
+                scen["clean"] += 1
+            if len(scen_samples) < 4:
+                scen_samples.append({"fault": o.get("fault"), "seed": o.get("seed"), "victim": o.get("victim"),
+                                     "timeline": o.get("timeline"), "ops": len(o.get("history") or []),
+                                     "verdicts": [v[1][:200] for v in vs][:4], "abandoned_left": o.get("abandoned_left"),
+                                     "history_head": (o.get("history") or [])[:6]})
+    chk.cov["traces_validated_against_impl"] = scen["runs"]
+    chk.cov["naming_scenarios"] = scen
+
     if not proofs_ok:
         chk.violation("proof obligations of C15 no longer check: %s" % chk.proof_failure[:300],
                       {"broken": "theorem", "detail": chk.proof_failure}, False)
@@ -441,7 +663,7 @@ def run(chk, replay=None):
                        "(one registering node per key, no loss, quiescence + one anti-entropy round), kill/rejoin scripts, the "
                        "lost-update scenario of the known finding. Evaluations = node dumps + per-node oracle verdicts + compared "
                        "dumps. Non-trivial = distinct final state (random) or distinct expected registry (oracle scripts).")
-    chk.cov["samples"] = [{"kind": c["kind"], "nodes": c["nodes"], "ops": c["ops"][:40]} for c in (cases[0], cases[1], cases[-1])]
+    chk.cov["samples"] = [{"kind": c["kind"], "nodes": c["nodes"], "ops": c["ops"][:40]} for c in (cases[0], cases[1], cases[-1])] + scen_samples
     chk.cov["input_distribution"] = dict(kinds, model_impl_mismatches=mism,
                                          ops_total=sum(len(c["ops"]) for c in cases),
                                          glue_hash=gh)
